@@ -283,8 +283,12 @@ class graph(Graph):
             oldnode.misc["cut"] = cutdone
             v = super(graph, self).add_vertex(v)  # ! avoid recursion for add_edge
             mz.write(vaddr, v)
+            # the successors of the old node become those of the new one
+            # (they are collected before the fall-through edge is added,
+            # otherwise v would be seen as its own successor):
+            succ = list(oldnode.N(+1))
             self.add_edge(link(oldnode, v))
-            for n in oldnode.N(+1):
+            for n in succ:
                 self.add_edge(link(v, n))
                 self.remove_edge(oldnode.e_to(n))
             return v
